@@ -117,9 +117,26 @@ def run(tier, fx=None, ck=None, control=False):
                     continue
                 if not ("Identifier" in sw[3] and "Assignment" in sw[3]):
                     continue
+                # the predicate may be computed once per parameter before the match (`let is_param_property = ..`): an arm uses it
+                # when it reads the modifier itself or branches on a value derived from that read
+                from numfmt import _closure_of
+                acc_seed = set()
+                for b, pl, sp in acc:
+                    for st in f.blocks[b]["s"]:
+                        if st[0] == "a" and not st[1][1] and any(x[2] == "accessibility" for pl2 in F.rvalue_places(st[2]) for x in F.place_fields(pl2)):
+                            acc_seed.add(st[1][0])
+                acc_derived = _closure_of(f, acc_seed) if acc_seed else set()
+                # `a.is_some() || b` assigns the result on the edges of the test: control dependence on the read counts too
+                for b, pl, sp in acc:
+                    for b2 in M.dominated_region(f, b):
+                        for st in f.blocks[b2]["s"]:
+                            if st[0] == "a" and not st[1][1] and fx.tys(f.locals[st[1][0]]) == "bool" and f.var_name(st[1][0]):
+                                acc_derived.add(st[1][0])
+                acc_derived = _closure_of(f, acc_derived) if acc_derived else acc_derived
                 for var in ("Identifier", "Assignment"):
                     region = M.dominated_region(f, sw[3][var])
-                    ok = any(b in region for b, _, _ in acc)
+                    ok = any(b in region for b, _, _ in acc) or any(
+                        f.blocks[b]["t"][0] == "switch" and f.blocks[b]["t"][1][0] in ("c", "m") and f.blocks[b]["t"][1][1][0] in acc_derived for b in region)
                     ck.instance("PP1.modifier-set", "%s / Pattern::%s parameters can be parameter properties" % (f.path, var), F.short_span(f.span), ok=ok)
                     if not ok:
                         ck.finding("PP1.modifier-set", "PP1.modifier-set/%s/%s" % (f.path, var), F.short_span(f.span),
@@ -189,10 +206,13 @@ def run(tier, fx=None, ck=None, control=False):
             for var, tgt in sw[3].items():
                 region = M.dominated_region(f, tgt)
                 helpers = [fx.fns[t[1]["d"]] for bi, t in f.calls() if bi in region and t[1].get("local") and t[1].get("d") in comp and t[1]["d"] != p]
-                if any(bi in region for bi, s in aggs(f, "Op", "SetPropertyConst")):
+                # an arm handles the kind when it emits the op itself or through a small emitter helper (not a general compile_* function)
+                small = [h for h in helpers if not any(param_ty(fx, h, ty_) for ty_ in ("Statement", "Expression", "Declaration"))
+                         or "export" in h.path.split("::")[-1]]
+                if any(bi in region for bi, s in aggs(f, "Op", "SetPropertyConst")) or any(aggs(h, "Op", "SetPropertyConst") and not aggs(h, "Op", "ExportBinding")
+                                                                                          for h in small):
                     ns_arms.add(var)
-                if any(bi in region for bi, s in aggs(f, "Op", "ExportBinding")) or any(aggs(h, "Op", "ExportBinding") and "export" in h.path.split("::")[-1]
-                                                                                       for h in helpers):
+                if any(bi in region for bi, s in aggs(f, "Op", "ExportBinding")) or any(aggs(h, "Op", "ExportBinding") for h in small):
                     mod_arms.add(var)
             if len(ns_arms) >= 2 and not mod_arms:
                 ns_sets[p] = ns_sets.get(p, set()) | ns_arms
@@ -227,16 +247,31 @@ def enum_rules(fx, ck, comp, pre):
     ck.rule("E3.binding-first", "the enum binding is declared before member initialisers are compiled", floor=1)
     ck.rule("E5.merge", "enum and namespace lowerings look the existing binding up before creating the object", floor=2)
     ck.rule("E6.auto-increment", "the initialiser forms treated as numeric are the forms that advance the auto-increment counter", floor=1)
-    enum_fns = [f for p, f in sorted(comp.items()) if param_ty(fx, f, "EnumDeclaration") and aggs(f, "Op", "CreateObject")]
-    ns_fns = [f for p, f in sorted(comp.items()) if param_ty(fx, f, "NamespaceDeclaration") and aggs(f, "Op", "CreateObject")]
+    def creators(decl_ty):
+        """functions that emit the CreateObject of a declaration kind: the lowering itself, or a helper it calls for that"""
+        out = []
+        for p, f in sorted(comp.items()):
+            if not param_ty(fx, f, decl_ty):
+                continue
+            if aggs(f, "Op", "CreateObject"):
+                out.append(f)
+                continue
+            for bi, t in f.calls():
+                g = comp.get(t[1].get("d")) if t[1].get("local") else None
+                if g is not None and aggs(g, "Op", "CreateObject") and not param_ty(fx, g, "Expression") and g not in out:
+                    out.append(g)
+        return out
+    enum_fns = [f for f in creators("EnumDeclaration") if param_ty(fx, f, "EnumDeclaration")]
+    enum_creators = creators("EnumDeclaration")
+    ns_fns = creators("NamespaceDeclaration")
     ck.anchor(bool(enum_fns), pre + "enum lowering (takes &EnumDeclaration, emits CreateObject)")
     ck.anchor(bool(ns_fns), pre + "namespace lowering (takes &NamespaceDeclaration, emits CreateObject)")
     # E5
-    for f in enum_fns + ns_fns:
+    for f in enum_creators + ns_fns:
         creates = aggs(f, "Op", "CreateObject")
         looks = aggs(f, "Op", "TryGetVar") + aggs(f, "Op", "GetVar")
         ok = all(any(f.dominates(lb, cb) for lb, _ in looks) for cb, _ in creates)
-        kind = "enum" if f in enum_fns else "namespace"
+        kind = "enum" if f in enum_creators else "namespace"
         ck.instance("E5.merge", "%s (%s) looks up the existing binding first" % (f.path, kind), F.short_span(f.span), ok=ok)
         if not ok:
             ck.finding("E5.merge", "E5.merge/%s" % f.path, F.short_span(f.span),
